@@ -175,19 +175,49 @@ def run_case(case, chooser):
                 peer.recv_msg()
 
         def loop_server():
-            try:
-                while not stop[0] and not conn.closed:
+            # a serving loop that survives what a dispatched callback raises (as an application's own loop would)
+            while not stop[0] and not conn.closed:
+                try:
                     conn.serve(1.0)
-            except EOFError:
-                pass
+                except EOFError:
+                    return
+                except sk.KernelAbort:
+                    raise
+                except Exception:
+                    st_["server_saw_callback_error"] = True
+
+        def poll_server():
+            # the same, but through poll(): it never queues behind the receive lock
+            while not stop[0] and not conn.closed:
+                try:
+                    if not conn.poll(1.0):
+                        k.sleep(0.01)
+                except EOFError:
+                    return
+                except sk.KernelAbort:
+                    raise
+                except Exception:
+                    st_["server_saw_callback_error"] = True
 
         done = [0]
 
         def caller(c):
             res = conn.async_request(consts.HANDLE_PING, c["token"], timeout=case["timeout"])
             res.add_callback(lambda r: c.__setitem__("t_dispatch", k.now))
+            if case.get("cb_raises"):
+                def bad_callback(r):
+                    raise RuntimeError("application callback failed")
+                try:
+                    res.add_callback(bad_callback)
+                except RuntimeError:
+                    pass                   # the reply had been dispatched already: the callback ran (and failed) right here
             try:
-                v = res.value
+                for _attempt in range(2 * ncallers + 1):
+                    try:
+                        v = res.value
+                        break
+                    except RuntimeError:
+                        continue           # some reply's callback failed in this very thread while it was serving: ask again
                 c["outcome"] = ["value", v]
             except AsyncResultTimeout:
                 c["outcome"] = ["timeout"]
@@ -205,6 +235,8 @@ def run_case(case, chooser):
                 bgs.append(helpers.BgServingThread(conn))
             elif case["server"] == "loop":
                 k.spawn(loop_server, name="loop-server", daemon=True)
+            elif case["server"] == "poll":
+                k.spawn(poll_server, name="poll-server", daemon=True)
             for c in callers[1:]:
                 k.spawn(caller, c, name=c["name"])
             caller(callers[0])
@@ -254,7 +286,8 @@ def check(case, chooser, rec, trail=None):
     problems = judge(case, s)
     taken = [t[0] for t in s["taken"]]
     nontrivial = (s["receiver"] is not None and not s["receiver"].startswith("caller")) or bool(taken)
-    classes = ["server:%s" % case["server"], "window:%s" % case["window"], "receiver:%s" % s["receiver"],
+    classes = ["callback-raises"] if case.get("cb_raises") else []
+    classes += ["server:%s" % case["server"], "window:%s" % case["window"], "receiver:%s" % s["receiver"],
                "timeout:%s" % case["timeout"], "extra:%s" % (case["extra_at"] is not None)]
     classes.append("callers:%d" % len(s["callers"]))
     for c in s["callers"]:
@@ -275,7 +308,8 @@ def cases():
         "part": st.just("random"),
         "timeout": st.sampled_from([None, 5, 30]),
         "delay": st.sampled_from([0, 0, 0.05, 0.1, 0.25, 1.0, 2.5]),
-        "server": st.sampled_from(["bg", "loop", "loop", "none"]),
+        "server": st.sampled_from(["bg", "loop", "loop", "none", "poll"]),
+        "cb_raises": st.sampled_from([False, False, True]),
         "extra_at": st.one_of(st.none(), st.sampled_from([0.5, 3.0])),
         "callers": st.sampled_from([1, 1, 2]),
         "order": st.permutations([0, 1]),
@@ -322,6 +356,10 @@ def plan(tier, scale):
         for window in ("open", "closed"):
             for delay in (0, 0.25):
                 bases.append({"timeout": 30, "delay": delay, "server": server, "extra_at": None, "window": window})
+    # a receiver that comes through poll(), and a completion callback that raises in whichever thread dispatches the reply
+    bases.append({"timeout": 30, "delay": 0.25, "server": "poll", "extra_at": None, "window": "closed"})
+    bases.append({"timeout": 30, "delay": 0.25, "server": "loop", "extra_at": None, "window": "closed", "cb_raises": True})
+    bases.append({"timeout": 30, "delay": 0, "server": "poll", "extra_at": None, "window": "closed", "cb_raises": True})
     if tier == "quick":
         out = [{"part": "random", "n": int(350 * scale)} for _ in range(8)]
         out += [{"part": "dfs", "base": b, "bound": 2 if (b["server"] == "loop" and b["delay"] == 0) else 1} for b in bases]
